@@ -55,7 +55,16 @@ type Case struct {
 }
 
 // The dependency-type alphabet. Names are what Edge.Type holds.
-var typeNames = []string{"reg", "dev", "opt", "test", "dev|opt", "scope=peer", "scope=bundle", "opt|knownas=z"}
+var typeNames = []string{"reg", "dev", "opt", "test", "dev|opt", "scope=peer", "scope=bundle", "opt|knownas=z",
+	"scope=bundle|knownas=a", "scope=bundle|knownas=b", "scope=peer|knownas=a", "dev|scope=bundle|knownas=b"}
+
+// siblingTypes are pairs of types with the same attribute keys that differ in
+// the value of one attribute only, and not the lowest-keyed one.
+var siblingTypes = [][2]string{
+	{"scope=bundle|knownas=a", "scope=bundle|knownas=b"},
+	{"scope=bundle|knownas=a", "scope=peer|knownas=a"},
+	{"scope=bundle|knownas=b", "dev|scope=bundle|knownas=b"},
+}
 
 var (
 	typeVals  []dep.Type
@@ -89,11 +98,33 @@ func init() {
 	}
 }
 
-// typeID identifies a dep.Type of a canonicalised graph in the alphabet, by
-// dep.Type.Compare; -1 when it is none of them.
+// typeID identifies a dep.Type of a canonicalised graph in the alphabet by
+// reading its attributes one by one (not by dep.Type.Compare, which is what
+// Canon itself orders edges with); -1 when it is none of them.
 func typeID(t dep.Type) int {
+	sig := func(t dep.Type) string {
+		s := ""
+		for _, k := range []dep.AttrKey{dep.Dev, dep.Opt, dep.Test} {
+			if t.HasAttr(k) {
+				s += "1"
+			} else {
+				s += "0"
+			}
+		}
+		for _, k := range []dep.AttrKey{dep.Scope, dep.KnownAs} {
+			v, ok := t.GetAttr(k)
+			s += fmt.Sprintf("|%v:%q", ok, v)
+		}
+		for _, k := range []dep.AttrKey{dep.XTest, dep.Framework, dep.MavenClassifier, dep.MavenArtifactType, dep.MavenDependencyOrigin, dep.MavenExclusions, dep.EnabledDependencies, dep.Environment, dep.Selector} {
+			if t.HasAttr(k) {
+				return "foreign"
+			}
+		}
+		return s
+	}
+	want := sig(t)
 	for i := range typeVals {
-		if typeVals[i].Compare(t) == 0 {
+		if sig(typeVals[i]) == want {
 			return i
 		}
 	}
@@ -330,7 +361,7 @@ func fpGraph(g *resolve.Graph, nh []uint64) (f fingerprint, ok bool) {
 
 // sameGraph is the deep comparison of two canonical forms: nodes in order with
 // version and errors, edges in order with from/to/requirement and type
-// (dep.Type.Compare == 0).
+// (identified attribute by attribute, see typeID).
 func sameGraph(a, b *resolve.Graph) bool {
 	if len(a.Nodes) != len(b.Nodes) || len(a.Edges) != len(b.Edges) {
 		return false
@@ -348,7 +379,7 @@ func sameGraph(a, b *resolve.Graph) bool {
 	}
 	for i := range a.Edges {
 		x, y := &a.Edges[i], &b.Edges[i]
-		if x.From != y.From || x.To != y.To || x.Requirement != y.Requirement || x.Type.Compare(y.Type) != 0 {
+		if x.From != y.From || x.To != y.To || x.Requirement != y.Requirement || typeID(x.Type) != typeID(y.Type) {
 			return false
 		}
 	}
